@@ -55,6 +55,9 @@ var owners = map[string][]string{
 	"hang":        {"C18", "C09"},
 	"hang.lock":   {"C18", "C09", "C16"},
 	"junk":        {"C19", "C05"},
+	"events":      {"C15"},
+	"events.late": {"C15"},
+	"resources":   {"C15"},
 	"challenge":   {"C03"},
 }
 
